@@ -160,3 +160,132 @@ c.returns("version_release_part", "old('DEFAULT_VERSION' in version) or old('APP
 c.returns("version_absent_without_fields", "old('DEFAULT_VERSION' in version) or old('APP_ROOT_VERSION' in version) or old(has_mmp) "
                                            "or 'DEFAULT_VERSION' not in version")
 c.returns("scfw_version_in_grammar", "old('SCFW_VERSION' in version) or not old(has_scfw) or in_version_grammar(version['SCFW_VERSION'])")
+
+
+# ================================================================================================
+# B — bounded stand-in: the real SuitComponentVersion.from_obj / ncs.build.read_version_file against the statement's own definitions
+# ================================================================================================
+def _precedence_key(s):
+    """(numeric fields, label rank, pre-release number) from the statement: numeric per field; alpha < beta < rc < release; a missing number counts as 0."""
+    rel, _, pre = s.partition("-")
+    fields = [int(x) for x in rel.split(".")]
+    if not pre:
+        return fields, 0, 0
+    label, _, num = pre.partition(".")
+    return fields, {"alpha": -3, "beta": -2, "rc": -1}[label], int(num) if num else 0
+
+
+def _zcmp(a, b):
+    n = max(len(a), len(b))
+    a, b = a + [0] * (n - len(a)), b + [0] * (n - len(b))
+    return (a > b) - (a < b)
+
+
+def bounded(ctx):
+    import importlib, itertools, random
+    from bounded.harness import Bounded
+    from pyvc import native, front
+    import logging
+    native.install_log_shim()
+    logging.disable(logging.CRITICAL)
+    quick = ctx["tier"] == "quick"
+    B = Bounded(ctx, rule="version strings of the grammar N(.N)*[-(alpha|beta|rc)[.N]] with fields from {0,1,2,9,10,255,256,300}: ALL strings with <= 2 numeric fields pairwise, "
+                          "seeded pairs for 3..5 fields (same number of numeric fields, or both releases): sign of the statement's precedence == sign of the zero-padded comparison of "
+                          "the integer lists the real from_obj stores (read back from to_cbor with the independent reader); unsupported labels rejected; VERSION files through the real "
+                          "read_version_file: sequence number strictly increasing in (major, minor, patch, tweak) order for minor, patch, tweak < 256, DEFAULT_VERSION accepted by from_obj",
+                bound="640 strings pairwise (204k pairs) + 20k/200k seeded pairs; 4000+ VERSION tuples x 12 EXTRAVERSION forms", budget_s=90 if quick else 600)
+    man = importlib.import_module("suit_generator.suit.manifest")
+    from bounded import cborx
+    vals = [0, 1, 2, 9, 10, 255, 256, 300]
+    pres = [""] + [f"-{l}{n}" for l in ("alpha", "beta", "rc") for n in ("", ".0", ".1", ".10")]
+    conv = {}
+
+    def lst(s):
+        if s not in conv:
+            o = man.SuitComponentVersion.from_obj(s)
+            conv[s] = cborx.decode_all(o.to_cbor())
+        return conv[s]
+
+    def check_pair(a, b):
+        ka, kb = _precedence_key(a), _precedence_key(b)
+        fa, fb = ka[0], kb[0]
+        n = max(len(fa), len(fb))
+        pa, pb = (fa + [0] * (n - len(fa)), ka[1], ka[2]), (fb + [0] * (n - len(fb)), kb[1], kb[2])
+        want = (pa > pb) - (pa < pb)
+        got = _zcmp(list(lst(a)), list(lst(b)))
+        if want != got:
+            B.fail("list-comparison-coincides-with-version-precedence", {"a": a, "b": b}, f"precedence {want}, lists {lst(a)} vs {lst(b)} compare {got}")
+            return False
+        return True
+
+    small = [".".join(map(str, f)) + p for k in (1, 2) for f in itertools.product(vals, repeat=k) for p in pres]
+    by_count = {}
+    for s in small:
+        by_count.setdefault(len(_precedence_key(s)[0]), []).append(s)
+    ok = True
+    for k, strs in by_count.items():
+        for a in strs:
+            for b in strs:
+                B.evaluations += 1
+                if ok and not check_pair(a, b):
+                    ok = False
+    B.distinct.update(("pairwise", k, len(v)) for k, v in by_count.items())
+    B.samples.append({"pairwise_strings": len(small), "example": small[137]})
+    rng = random.Random(ctx["seed"] + 20)
+    for i in range(20000 if quick else 200000):
+        k = rng.choice((3, 3, 4, 5, 6))
+        mk = lambda: ".".join(str(rng.choice(vals + [rng.randrange(301)])) for _ in range(k)) + rng.choice(pres)
+        a, b = mk(), mk()
+        if rng.random() < 0.3:  # near-equal pairs
+            b = a.rsplit("-", 1)[0] + rng.choice(pres)
+        B.case((a, b), sample={"a": a, "b": b} if i == 7 else None)
+        if not check_pair(a, b):
+            break
+    # releases of DIFFERENT field counts
+    for i in range(3000):
+        a = ".".join(str(rng.choice(vals)) for _ in range(rng.randrange(1, 7)))
+        b = ".".join(str(rng.choice(vals)) for _ in range(rng.randrange(1, 7)))
+        B.case(("rel", a, b))
+        if not check_pair(a, b):
+            break
+    for bad in ("1.0-gamma", "1.0-RC", "1.0-Alpha", "1.0-", "1..0", "1.0-rc1", "a.b", "1.0-pre.1", "1.0+build", "-1"):
+        B.case(("reject", bad))
+        try:
+            man.SuitComponentVersion.from_obj(bad)
+        except ValueError:
+            continue
+        except Exception as e:  # noqa: BLE001
+            B.fail("unsupported-label-rejected-with-ValueError", {"version": bad}, f"{type(e).__name__}: {e}")
+            continue
+        B.fail("unsupported-label-rejected-with-ValueError", {"version": bad}, "accepted")
+    # VERSION files
+    import sys
+    sys.path.insert(0, front.REPO)
+    build = importlib.import_module("ncs.build")
+    d = B.fresh_dir("c20")
+    tuples = sorted(set(itertools.product([0, 1, 2, 127, 128, 255, 256, 300], [0, 1, 255], [0, 1, 255], [None, 0, 1, 255])), key=lambda t: (t[0], t[1], t[2], -1 if t[3] is None else t[3]))
+    prev = None
+    extras = [None, "", "rc1", "rc.1", "alpha", "beta2", "beta.10", "dev", "RC1", "Beta", "rc", "something-else"]
+    for i, (M, m, p, t) in enumerate(tuples):
+        ev = extras[i % len(extras)]
+        path = f"{d}/VERSION"
+        with open(path, "w") as fh:
+            fh.write(f"VERSION_MAJOR = {M}\nVERSION_MINOR = {m}\nPATCHLEVEL = {p}\n" + (f"VERSION_TWEAK = {t}\n" if t is not None else "") + (f"EXTRAVERSION = {ev}\n" if ev is not None else ""))
+        case = {"major": M, "minor": m, "patch": p, "tweak": t, "extraversion": ev}
+        B.case(("VERSION", M, m, p, t, ev), sample=case if i == 50 else None)
+        try:
+            items = dict(build.read_version_file(path))
+        except Exception as e:  # noqa: BLE001
+            B.fail("version-file-is-read", case, f"{type(e).__name__}: {e}")
+            continue
+        seq = int(items["DEFAULT_SEQ_NUM"])
+        key = (M, m, p, 0 if t is None else t)
+        if prev is not None and key > prev[0] and not seq > prev[1]:
+            B.fail("default-sequence-number-strictly-increasing", case, f"{key} -> {seq} after {prev[0]} -> {prev[1]}")
+        if prev is None or key >= prev[0]:
+            prev = (key, seq)
+        try:
+            man.SuitComponentVersion.from_obj(items["DEFAULT_VERSION"])
+        except Exception as e:  # noqa: BLE001
+            B.fail("default-version-string-accepted-by-the-encoder", case, f"DEFAULT_VERSION {items.get('DEFAULT_VERSION')!r}: {type(e).__name__}: {e}")
+    return B.done()
